@@ -218,6 +218,19 @@ Fixpoint tv_schedule (now : N) (s : list titem) : list (N * titem) :=
   | i :: r => (now, i) :: tv_schedule now r
   end.
 
+(* RST records: the record carries the LEVEL of the reset signal (onReset's parameter is the new level of the pin,
+   ReferenceSimulator passes rs.resetHigh); the interpreter assigns it to the reset port as it is.  Whether that
+   level means "in reset" depends on the polarity of the clock's registers: *)
+Definition rst_asserted (activeHigh level : bool) : bool := Bool.eqb level activeHigh.
+
+(* level text of reset [name] after replaying the records [s], starting from [cur] (the declared initial value) *)
+Fixpoint tv_rst_level (name : string) (s : list titem) (cur : option string) : option string :=
+  match s with
+  | [] => cur
+  | TRst n v :: r => tv_rst_level name r (if String.eqb n name then Some v else cur)
+  | _ :: r => tv_rst_level name r cur
+  end.
+
 (* text -> records (used by the driver to hand the REAL file to tv_schedule) *)
 Fixpoint tv_parse (fuel : nat) (ls : list string) : option (list titem) :=
   match fuel with
